@@ -1384,7 +1384,9 @@ class SampleSet(abc.Iterable, abc.Sized):
 
         """
         if not inplace:
-            return self.copy().change_vartype(vartype, energy_offset, inplace=True)
+            new = self.copy()
+            new._info = copy.deepcopy(new.info)  # copy() is shallow
+            return new.change_vartype(vartype, energy_offset, inplace=True)
 
         if not self.done():
             def hook(sampleset):
@@ -1486,7 +1488,9 @@ class SampleSet(abc.Iterable, abc.Sized):
             return self
 
         elif done:  # and not inplace
-            return self.copy().relabel_variables(mapping, inplace=True)
+            new = self.copy()
+            new._info = copy.deepcopy(new.info)  # copy() is shallow
+            return new.relabel_variables(mapping, inplace=True)
 
         elif inplace:  # and not done
             old_hook = self._result_hook
@@ -1644,7 +1648,9 @@ class SampleSet(abc.Iterable, abc.Sized):
 
         if len(self) == 0:
             # empty so all are lowest
-            return self.copy()
+            new = self.copy()
+            new._info = copy.deepcopy(new.info)  # copy() is shallow
+            return new
 
         record = self.record
 
